@@ -872,6 +872,15 @@ func (w *c05World) step(ev string) {
 				}
 			}
 		}
+		if !isPass && parts[0] != "mfault" && !odBefore && !w.od && count(k, isOK) > 0 && len(b.row) <= 1 && len(a.row) == 1 && len(a.cached) == 1 {
+			// whatever made instance 0 renew this name (manage of a due or revoked certificate, a job
+			// released or run by a timer during `adv`): once the new certificate is stored, the
+			// managed certificate the cache holds for the name is that one
+			if a.served != a.stored {
+				w.violation("C05 renewed-not-served", fmt.Sprintf("name %d renewed during %s: stored %s, served %s", k, ev, a.stored, a.served))
+			}
+			w.o.Stat("renewed_outside_pass_checked", 1)
+		}
 		if (parts[0] == "msync" || parts[0] == "masync" || parts[0] == "mfault") && arg(1) == k {
 			w.o.Stat("manage_"+parts[0]+"_"+res, 1)
 		}
@@ -1297,6 +1306,7 @@ func TestVerifC05(t *testing.T) {
 		c05Scenario(t, o, ca, int64(i), sc, 90*24*time.Hour, 3, 0, 0)
 		o.Stat("fixed_histories", 1)
 	}
+	c05Overlaps(t, o, ca)
 	// every history up to a length over a small alphabet, after a prelude that puts two names
 	// under management and opens the renewal window of both
 	alphabet := []string{"pass", "adv:60", "mode:0:hard", "mode:0:soft", "mode:0:hold", "mode:0:ok",
